@@ -129,6 +129,14 @@ IsValidSAW(sa, t, rk) ==
 UnaryText(n, a, s) == [i \in 1..n |-> IF i = n THEN s ELSE a]
 UnarySA(n) == [r \in 1..n |-> n - r]
 
+\* closed-form family: a text whose symbols are pairwise distinct and are exactly 0..n-1 (unique 0 at the
+\* end): its suffix array is the inverse permutation -- row v holds the position of value v
+\* (MC lemma SuffixIndexMC_C03!PermLemma: the same verdict as IsValidSA)
+PermText(t) == /\ Len(t) >= 1 /\ t[Len(t)] = 0
+               /\ \A i \in 1..Len(t) : t[i] \in 0..(Len(t) - 1)
+               /\ Cardinality(Range(t)) = Len(t)
+PermSAOK(sa, t) == IsPerm(sa, Len(t)) /\ \A r \in 1..Len(t) : t[sa[r] + 1] = r - 1
+
 \* closed-form family: the zigzag integer text 2m, 1, 2m-1, 2, ..., m+1, m, 0 (2m+1 pairwise distinct
 \* symbols): its suffix array is the inverse permutation -- row v holds the position of value v
 \* (MC lemma SuffixIndexMC_C03!ZigzagLemma)
